@@ -208,13 +208,24 @@ func makeBatch(r *core.Rand, w *world.World, kind string) ([]map[string]any, []*
 	case "nilrows":
 		return nil, nil
 	case "unmarshalable":
+		// Mostly small batches with one bad row; one in four is large (so that a
+		// per-partition or chunked code path is taken) and carries several bad
+		// rows, which under a partition function land in different partitions.
 		n := r.Range(1, 4)
+		nbad := 1
+		if r.Intn(4) == 0 {
+			n = r.Range(64, 160)
+			nbad = r.Range(2, 6)
+		}
 		rows := make([]map[string]any, 0, n)
 		var recs []*world.RowRec
-		bad := r.Intn(n)
+		bad := map[int]bool{}
+		for len(bad) < nbad {
+			bad[r.Intn(n)] = true
+		}
 		for k := 0; k < n; k++ {
 			rec := w.NewRow(r, 0)
-			if k == bad {
+			if bad[k] {
 				rec.Row["bad"] = make(chan int) // json: unsupported type
 			}
 			rows = append(rows, rec.Row)
